@@ -369,6 +369,57 @@ print(' '.join(out))
 """
 
 
+ORDER_CHILD = r"""
+import sys, hashlib, json
+sys.path.insert(0, %(harness)r)
+import core
+core.import_repo()
+from props import c06
+import xt
+from xmldiff import main
+calls = c06.order_calls(%(seed)d, %(n)d)
+order = list(range(len(calls)))
+if %(rev)d:
+    order.reverse()
+res = {}
+for k in order:
+    L, R, opts = calls[k]
+    try:
+        r = main.diff_trees(xt.to_lxml(L), xt.to_lxml(R), diff_options=dict(opts))
+    except Exception as e:
+        r = 'EXC ' + type(e).__name__
+    res[k] = hashlib.sha256(repr(r).encode('utf-8', 'surrogatepass')).hexdigest()[:12]
+print(' '.join(res[k] for k in range(len(calls))))
+"""
+
+
+def order_calls(seed, n):
+    """The same document pairs under every matching mode x ratio mode: the calls one process makes in one order and
+    another process in the reverse order."""
+    calls = []
+    for idx in range(n):
+        L, R, opts, r = gen_case(seed + 31, idx)
+        base = {k: v for k, v in opts.items() if k not in ("fast_match", "best_match", "ratio_mode")}
+        for mm in ({}, {"best_match": True}, {"fast_match": True}):
+            for rm in ("fast", "accurate", "faster"):
+                calls.append((L, R, dict(base, ratio_mode=rm, **mm)))
+    return calls
+
+
+def order_digests(seed, n):
+    procs = []
+    for rev in (0, 1):
+        code = ORDER_CHILD % {"harness": os.path.join(core.VERIF, "harness"), "n": n, "seed": seed, "rev": rev}
+        procs.append(subprocess.Popen([sys.executable, "-c", code], stdout=subprocess.PIPE, stderr=subprocess.PIPE, text=True))
+    outs = []
+    for p in procs:
+        o, e = p.communicate(timeout=1800)
+        if p.returncode != 0:
+            raise core.Infra("call-order child failed: " + e[-500:])
+        outs.append(o.strip().split())
+    return outs
+
+
 def hashseed_digests(seed, n, seeds):
     out = {}
     procs = []
@@ -405,6 +456,21 @@ def run(tier, seed, intensify=False):
                 st.failures.append({"sig": "C06/result-depends-on-PYTHONHASHSEED", "left": xt.to_xml(L), "right": xt.to_xml(R),
                                     "options": repr(opts), "digest_by_hash_seed": vals,
                                     "replay_hint": "diff_trees(left, right, options) in processes started with these PYTHONHASHSEED values"})
+                break
+    # the same calls in one order and in the reverse order, each in a fresh process: every call must give the same result
+    # (no state may travel from one call to the next through module or class attributes)
+    no = 12 if tier == "quick" else 150
+    fwd, bwd = order_digests(seed, no)
+    st.units["U12callorder"] = 2 * len(fwd)
+    st.evaluations += 2 * len(fwd)
+    if fwd != bwd:
+        calls = order_calls(seed, no)
+        for k, (a, b) in enumerate(zip(fwd, bwd)):
+            if a != b:
+                L, R, opts = calls[k]
+                st.failures.append({"sig": "C06/result-depends-on-earlier-calls-in-the-process", "left": xt.to_xml(L), "right": xt.to_xml(R),
+                                    "options": repr(opts), "call_index": k,
+                                    "replay_hint": "props/c06.order_calls(seed, n): run the calls in order and in reverse order in two fresh processes"})
                 break
     return st
 
